@@ -76,9 +76,13 @@ def atmo(chk, thorough):
         chk.traces += min(len(behs), 4000 if thorough else 600)
     # percent and fraction mean the same, bit for bit
     for f in (0.0, 0.005, 0.3, 0.5, 1.0):
-        a1 = m.Atmo(U.Foot(0), U.InHg(29.92), U.Fahrenheit(80), f)
-        a2 = m.Atmo(U.Foot(0), U.InHg(29.92), U.Fahrenheit(80), f * 100 if f * 100 > 1 else f)
+        o1 = impl.outcome(m.Atmo, U.Foot(0), U.InHg(29.92), U.Fahrenheit(80), f)
+        o2 = impl.outcome(m.Atmo, U.Foot(0), U.InHg(29.92), U.Fahrenheit(80), f * 100 if f * 100 > 1 else f)
         chk.count(1)
+        if o1[0] != "ok" or o2[0] != "ok":
+            chk.violation("X.Atmo.HumidityRejected", {"module": "Atmo", "fraction": f}, {"exc": [o1[1], o2[1]]})
+            continue
+        a1, a2 = o1[1], o2[1]
         if a1.density_ratio != a2.density_ratio:
             chk.violation("X.Atmo.PercentDiffersFromFraction", {"module": "Atmo", "fraction": f}, {})
 
